@@ -62,11 +62,11 @@ def Holds (b : Base) (a0 : Act) (rest0 : List Act) (s : St) : Prop :=
   WF s ∧ ∃ upper top rest, Running b s top rest ∧ top :: rest = upper ++ a0 :: rest0
 
 theorem holds_step_ext {b : Base} {a0 : Act} {rest0 : List Act} {s s' : St} (h : Holds b a0 rest0 s) (hv : VmStep s s')
-    (ha : a0.A ≤ s'.addr.length) : Holds b a0 rest0 s' ∧ TExt s s' := by
+    (ha : a0.A ≤ s'.addr.length) : Holds b a0 rest0 s' ∧ TExt s s' ∧ s'.suspended = s.suspended := by
   obtain ⟨hw, upper, top, rest, hr, hst⟩ := h
   obtain ⟨fuel, i, _, hf, hex⟩ := hv
-  obtain ⟨hw', he, hn, _⟩ := (allSpec' (fuel + 1)).exec b s s' top rest i hw hr hf hex
-  refine ⟨?_, he⟩
+  obtain ⟨hw', he, hn, hsu⟩ := (allSpec' (fuel + 1)).exec b s s' top rest i hw hr hf hex
+  refine ⟨?_, he, hsu⟩
   have hlt := Chain.A_lt _ _ _ _ hr.chain
   have hmem : a0 = top ∨ a0 ∈ rest := by
     have : a0 ∈ top :: rest := by rw [hst]; simp
